@@ -10,7 +10,8 @@ Local Open Scope Z_scope.
 Lemma Inv_repar : forall c m m' a a' s h P' sc sc',
   Inv c m a -> leaf s = true -> hget (holders a) s = Some h ->
   holders a' = hset (holders a) s (mkHolder (h_own h) P' (h_chain h) (h_dead h)) ->
-  NoDup P' -> (forall p, In p P' -> is_handle p = false /\ get m' p <> None) ->
+  NoDup P' -> (forall p, In p P' -> is_handle p = false) ->
+  (h_dead h = false -> forall p, In p P' -> get m' p <> None) ->
   (forall y, y <> s -> shape_of m' y = shape_of m y) ->
   get m s = Some sc -> get m' s = Some sc' ->
   s_lim sc' = s_lim sc -> s_done sc' = s_done sc -> s_chain sc' = s_chain sc -> s_edges sc' = P' ->
@@ -19,10 +20,9 @@ Lemma Inv_repar : forall c m m' a a' s h P' sc sc',
            = stat_add (use_of m x) (stat_scale (countb x (areach a' s)) (use_of m s))) ->
   Inv c m' a'.
 Proof.
-  intros c m m' a a' s h P' sc sc' I Hl G Ha' Nd HP Oth Gm Gm' Q1 Q2 Q3 Q4 Gd U.
+  intros c m m' a a' s h P' sc sc' I Hl G Ha' Nd St HP Oth Gm Gm' Q1 Q2 Q3 Q4 Gd U.
   pose proof (I_wf c m a I) as W.
   assert (Hs : is_handle s = true) by (destruct s; try discriminate; reflexivity).
-  assert (St : forall p, In p P' -> is_handle p = false) by (intros p Hp; apply (HP p Hp)).
   pose proof (WfA_repar a a' s h P' W Hl G Ha' Nd St) as W'.
   assert (Pres : forall q, get m q <> None -> get m' q <> None).
   { intros q Gq. destruct (sid_dec q s) as [->|Hne]; [rewrite Gm'; discriminate | apply (shape_present m m' q (Oth q Hne) Gq)]. }
@@ -48,7 +48,7 @@ Proof.
       rewrite El. exact R.
   - intros y hy Gy Dy. rewrite Hg in Gy. destruct (sid_eqb s y) eqn:X.
     + apply sid_eqb_eq in X. subst y. inversion Gy; subst hy; cbn.
-      rewrite (rp_par_s a a' s h P' Hl Ha'). split; [intros q Hq; apply (HP q Hq)|].
+      rewrite (rp_par_s a a' s h P' Hl Ha'). split; [intros q Hq; apply (HP Dy q Hq)|].
       intros o Ho. destruct (W_leaf a W s h G Hl) as [Ec _]. rewrite Ec in Ho. destruct Ho.
     + apply sid_eqb_neq in X. destruct (I_present c m a I y hy Gy Dy) as [P1 P2].
       rewrite (rp_par_other a a' s h P' Ha' y) by congruence. split.
